@@ -107,6 +107,11 @@ pub enum Submit {
 	ShiftedFee,
 	/// declares a fee with a priority shift but pays only the shifted amount
 	ShiftedUnderpay,
+	/// aggregate of an already pooled, generously paying transaction and a new one that pays less than
+	/// its own minimum: only the new part would enter the pool, so it must be refused
+	AggregatedUnderFee,
+	/// one transaction spending an immature coinbase together with a mature one
+	MixedMaturityCoinbases,
 }
 
 #[derive(Serialize, Deserialize, Clone, Debug, PartialEq)]
@@ -542,6 +547,42 @@ impl<'w> PoolSim<'w> {
 					None
 				}
 			}
+			Submit::MixedMaturityCoinbases => {
+				let used = self.pool_inputs();
+				let cbs: Vec<OutInfo> = self.world.blocks[self.head].ledger.values().filter(|o| o.coinbase && !used.contains(&ckey(&o.commit))).cloned().collect();
+				let young: Vec<OutInfo> = cbs.iter().filter(|o| o.height + maturity == next_h + 1).cloned().collect();
+				let old: Vec<OutInfo> = cbs.iter().filter(|o| o.height + maturity <= next_h).cloned().collect();
+				if let (Some(x), false) = (young.first().cloned(), old.is_empty()) {
+					let y = rng.pick(&old).clone();
+					expect = Some(false);
+					self.probe("mixed_maturity_coinbases_submitted");
+					self.make_spend(&[x, y], 1, Self::plain_fee(2, 1), None, &mut rng)
+				} else {
+					None
+				}
+			}
+			Submit::AggregatedUnderFee => {
+				// a generous A goes into the txpool first (fluff), then AB with a near-free B
+				if free.len() >= 2 && self.pool.txpool.size() + 2 <= self.pool.config.max_pool_size {
+					let a = self.make_spend(&[free[0].clone()], 1, Self::plain_fee(1, 1) * 6, None, &mut rng);
+					let b = self.make_spend(&[free[1].clone()], 1, 1_000 + rng.below(1000), None, &mut rng);
+					match (a, b) {
+						(Some(a), Some(b)) => {
+							if self.pool.add_to_pool(TxSource::Broadcast, a.clone(), false, &header).is_ok() {
+								self.accepted.push(a.clone());
+								expect = Some(false);
+								self.probe("aggregate_with_underfee_remainder_submitted");
+								transaction::aggregate(&[a, b]).ok()
+							} else {
+								None
+							}
+						}
+						_ => None,
+					}
+				} else {
+					None
+				}
+			}
 			Submit::ShiftedFee | Submit::ShiftedUnderpay => {
 				if let Some(x) = free.first().cloned() {
 					let shift = rng.range(1, 6);
@@ -646,6 +687,7 @@ impl<'w> PoolSim<'w> {
 			Some(t) => t,
 			None => return Ok("skipped".into()),
 		};
+		let stem = stem && *kind != Submit::AggregatedUnderFee;
 		let over_capacity = self.pool.txpool.size() >= self.pool.config.max_pool_size;
 		let res = self.pool.add_to_pool(TxSource::Broadcast, tx.clone(), stem, &header);
 		let cls = match &res {
@@ -773,7 +815,7 @@ pub fn gen_ops(rng: &mut SimRng, thorough: bool) -> Vec<Op> {
 	for _ in 0..n {
 		let k = rng.below(100);
 		let op = if k < 55 {
-			let kind = match rng.below(25) {
+			let kind = match rng.below(28) {
 				0..=6 => Submit::Valid,
 				7 | 8 => Submit::Dependent,
 				9 | 10 => Submit::Conflict,
@@ -789,7 +831,9 @@ pub fn gen_ops(rng: &mut SimRng, thorough: bool) -> Vec<Op> {
 				21 => Submit::Outputless,
 				22 => Submit::OutputlessBadSignature,
 				23 => Submit::ShiftedFee,
-				_ => Submit::ShiftedUnderpay,
+				24 => Submit::ShiftedUnderpay,
+				25 => Submit::AggregatedUnderFee,
+				_ => Submit::MixedMaturityCoinbases,
 			};
 			Op::Submit { kind, stem: rng.chance(1, 4), r: rng.next_u64() }
 		} else if k < 70 {
@@ -827,11 +871,12 @@ pub fn gen_ops_c13(rng: &mut SimRng, thorough: bool) -> Vec<Op> {
 	for _ in 0..n {
 		let k = rng.below(100);
 		let op = if k < 60 {
-			let kind = match rng.below(10) {
+			let kind = match rng.below(12) {
 				0 | 1 => Submit::ImmatureCoinbase,
 				2 | 3 | 4 => Submit::JustMatureCoinbase,
 				5 | 6 => Submit::LockFuture,
 				7 | 8 => Submit::LockNext,
+				9 | 10 => Submit::MixedMaturityCoinbases,
 				_ => Submit::Valid,
 			};
 			Op::Submit { kind, stem: rng.chance(1, 4), r: rng.next_u64() }
@@ -916,7 +961,7 @@ pub fn case_c13(tier: &str, seed: u64, case: u64) -> CaseResult {
 		}
 		res.extra.insert("poolsim_runs".into(), json!(res.runs));
 		if let Some(v) = v {
-			let relevant = ["ImmatureCoinbase", "JustMatureCoinbase", "LockFuture", "LockNext"].iter().any(|k| v.key == format!("C14:submit-result:{}", k));
+			let relevant = ["ImmatureCoinbase", "JustMatureCoinbase", "LockFuture", "LockNext", "MixedMaturityCoinbases"].iter().any(|k| v.key == format!("C14:submit-result:{}", k));
 			if relevant {
 				res.violations.push(Violation {
 					key: v.key.replace("C14:submit-result:", "C13:pool-answer:"),
